@@ -45,6 +45,14 @@ func c13Spec(r gen.Rand, tag, prefix string, chunk int) (*spec.Spec, int) {
 		if ncache != 1 {
 			continue
 		}
+		if in := sp.Nodes[ci].In[0]; r.Chance(0.25) {
+			// The cache operator directly on a pipeline break that is not a shuffle:
+			// its input is materialized, so the cache is the first operator of its task.
+			switch sp.Nodes[in].Op {
+			case "readerfunc", "map", "filter", "flatmap":
+				sp.Nodes[in].Prag = []string{"materialize"}
+			}
+		}
 		if _, err := sp.Types(); err != nil {
 			continue
 		}
@@ -155,6 +163,30 @@ func GenC13(seed uint64, i int) *world.Case {
 			present = append(present, sh)
 		}
 	}
+	// A fault-free first run that succeeded has written every shard's file — also
+	// the files of shards without rows — unless something downstream stops reading
+	// the cached slice before its end (Head), in which case a shard's file may
+	// legitimately be missing.
+	var missing []int
+	if mode == "clean" && o1.Verdict == "ok" && stepOK(o1, 0) && stepOK(o1, 1) {
+		hasHead := false
+		for _, n := range sp.Nodes {
+			if n.Op == "head" {
+				hasHead = true
+			}
+		}
+		if !hasHead {
+			have := map[int]bool{}
+			for _, sh := range present {
+				have[sh] = true
+			}
+			for sh := 0; sh < nshard; sh++ {
+				if !have[sh] {
+					missing = append(missing, sh)
+				}
+			}
+		}
+	}
 	// After a clean run, sometimes drop a subset of the files.
 	if mode == "clean" && o1.Verdict == "ok" && r.Chance(0.5) && len(present) > 0 {
 		k := 1 + r.Intn(len(present))
@@ -215,7 +247,7 @@ func GenC13(seed uint64, i int) *world.Case {
 		}
 	}
 	p2.Meta = map[string]any{"mode": mode, "cache_op": sp.Nodes[ci].Op, "nshard": nshard, "present": present,
-		"pipelined": pipelined, "upstream_sites": sites, "reader_sites": readers, "first_run_ok": o1.Verdict == "ok" && stepOK(o1, 0)}
+		"pipelined": pipelined, "upstream_sites": sites, "reader_sites": readers, "first_run_ok": o1.Verdict == "ok" && stepOK(o1, 0), "missing_after_clean": missing}
 	return p2
 }
 
@@ -279,6 +311,10 @@ func judgeC13(c *world.Case, o *world.Outcome) string {
 	}
 	if c.Meta == nil || o.Verdict != "ok" || o.Extra == nil || c.Meta["mode"] == "known-zstd" {
 		return ""
+	}
+	if miss := metaInts(c.Meta["missing_after_clean"]); len(miss) > 0 {
+		o.Detail = fmt.Sprintf("a fault-free run completed successfully, yet the cache holds no file for shard(s) %v of %v: the next run cannot skip their computation", miss, c.Meta["nshard"])
+		return "cache-file-missing-after-successful-run"
 	}
 	calls := map[string]int{}
 	if m, ok := o.Extra["site_calls"].(map[string]any); ok {
